@@ -71,6 +71,8 @@ type VC struct {
 	heap0shared map[string]Term
 	globalsUsed map[string]bool
 	canaries []*Obligation
+	loopCanaries []*Obligation
+	loopFeas map[string][]*Line
 	inLoopDepth int
 	panicEscapes int
 	explicitTargs []types.Type
@@ -124,6 +126,7 @@ type State struct {
 	panicking bool
 	ghostLocals map[string]Val
 	inQuant int
+	noAllocAssume bool
 	inFrameAssume bool
 	unwinding bool
 	curChanElem types.Type
@@ -735,7 +738,9 @@ func (st *State) freshVal(prefix string, t types.Type) Val {
 	case kSlice:
 		sv := SliceV{st.declare(prefix+".arr", SInt), tInt(0), st.declare(prefix+".len", SInt), st.declare(prefix+".cap", SInt), t}
 		st.assumeSliceWF(sv)
-		st.assumeAllocated(sv.Arr)
+		if !st.noAllocAssume {
+			st.assumeAllocated(sv.Arr)
+		}
 		return sv
 	case kStruct:
 		s := t.Underlying().(*types.Struct)
